@@ -585,6 +585,24 @@ var asiHazards = []string{
 	"return (() => { 'use strict'; return typeof this }).call(1);",
 	"return {m() { 'use strict'; return typeof this }}.m.call(1);",
 	"return class { static m() { 'not a directive'; return 1 } }.m();",
+	// labels on loops whose head is rewritten (Annex B for-in initializers), label sets (a: b: loop) and `in`
+	// inside a for-loop initializer below yield (the printer must keep the parentheses)
+	"L: for (var k = H.p(1, 5) in H.p(2, {x: 1, y: 2})) { H.p(3, k); if (k === 'x') continue L; break L; } return k;",
+	"var out = []; L: for (var k = H.p(1, 5) in H.p(2, {})) { continue L; } out.push(k); return out;",
+	"L: M: for (var k = 7 in {x: 1}) { H.p(1, k); continue L; } return k;",
+	"L: M: while (H.p(1, c)) { c = 0; continue L; } return 1;",
+	"L: M: for (var i = 0; i < 2; i++) { H.p(1, i); if (i) break M; continue L; } return i;",
+	"if (a) L: for (var k = H.p(1, 3) in {x: 1}) { continue L } return k;",
+	"for (var k = H.p(1, 3) in {x: 1}) { H.p(2, k) } return k;",
+	"var it = (function*() { for (var x = yield ('x' in {x: 1}); H.p(1, x); ) { return x } })(); it.next(); return it.next(a).value;",
+	"var it = (function*() { for (var x = (yield 'x' in {x: 1}, 2); ; ) { return x } })(); return [it.next().value, it.next(a).value];",
+	"var it = (function*() { for (var x = [yield 'x' in {x: 1}]; ; ) { return x } })(); return [it.next().value, it.next(a).value];",
+	"var it = (function*() { for (var x = yield* ('x' in {x: 1} ? [1] : [2]); ; ) { return x } })(); return [it.next().value, it.next(a).value];",
+	"var it = (function*() { for (var x = yield yield ('y' in {x: 1}); ; ) { return x } })(); return [it.next().value, it.next(a).value, it.next(b).value];",
+	"for (var f = () => H.p(1, ('x' in {x: 1})); ; ) { return f() }",
+	"for (var f = async () => ('x' in {x: 1}); ; ) { return typeof f }",
+	"for (var x = a ? ('x' in {x: 1}) : ('y' in {x: 1}); ; ) { return x }",
+	"for (var x = H.p(1, a) || ('x' in {x: 1}), y = !('x' in {}); ; ) { return [x, y] }",
 }
 
 func asiSpace() xseg {
